@@ -43,6 +43,7 @@ def expr(rng, d=0):
         lambda: "%s.prototype.%s.apply(%s, %s, %s, %s)" % (rng.choice(["String", "P"]), rng.choice(METHODS[:7]), rng.choice(RECV), rng.choice(ARRS[:8]), sub(), sub()),
         lambda: "''.%s.%s(%s, %s)" % (rng.choice(METHODS[:7]), rng.choice(["call", "apply"]), rng.choice(RECV), rng.choice(ARRS)),
         lambda: "aloneMethod(%s)" % rng.choice(ARGS),
+        lambda: "aloneMethod((aloneMethod = %s, %s))" % (rng.choice(["g", "f"]), rng.choice(["1", "a"])),
         lambda: "%s.trim(%s).concat(%s)" % (par(rng.choice(RECV)), rng.choice(ARGS[:3]), rng.choice(ARGS)),
         lambda: "delete o[%s]" % sub(),
         # an optional CALL whose callee is a member access (optional, parenthesised, or reached through an earlier optional link): its receiver is the call's this
@@ -50,6 +51,12 @@ def expr(rng, d=0):
         lambda: "(%s.str)?.(%s).%s(%s)" % (rng.choice(["o", "m", "o.p"]), rng.choice(ARGS), rng.choice(METHODS), rng.choice(ARGS)),
         lambda: "%s?.[%s]?.(%s).%s(%s)" % (rng.choice(["o", "m"]), rng.choice(["'str'", "k"]), rng.choice(ARGS), rng.choice(METHODS), rng.choice(ARGS)),
         lambda: "%s?.p.str?.(%s).%s(%s)" % (rng.choice(["o", "m"]), rng.choice(ARGS), rng.choice(METHODS), rng.choice(ARGS)),
+        # a parenthesised optional chain inside an outer chain: its short circuit ends at the parenthesis
+        lambda: "(%s?.%s(%s)).p?.q" % (rng.choice(["nul", "undef", "o", "m", "str"]), rng.choice(METHODS), rng.choice(ARGS)),
+        lambda: "(%s?.p.%s(%s)).length?.q.r" % (rng.choice(["nul", "undef", "o", "m"]), rng.choice(METHODS), rng.choice(ARGS)),
+        lambda: "(%s?.%s(%s))?.p.q" % (rng.choice(["nul", "undef", "o", "str"]), rng.choice(METHODS), rng.choice(ARGS)),
+        # the same variable on both sides of an operation whose other operand changes it
+        lambda: rng.choice(["i + i++", "i + ++i", "(i += i++)", "i++ + i", "x + (x = y)", "x + -m", "x + typeof (x = y)", "i + -i--", "(x += -(x = y))", "`${i}` + i++", "x.concat(x = y)", "i + i++ + i"]),
         # delete of an optional chain with an instrumentable call inside: the operand must stay a reference
         lambda: "delete %s?.%s(%s).p" % (rng.choice(["o", "m", "f"]), rng.choice(METHODS), rng.choice(ARGS)),
         lambda: "delete o?.p.%s(%s)[%s]" % (rng.choice(METHODS), rng.choice(ARGS), rng.choice(["'q'", "k", sub()])),
